@@ -100,7 +100,7 @@ def run(res, ctx):
     rng = random.Random(seed * 86028121 + 7)
     st = collections.Counter()
     seen, samples, corr = set(), [], []
-    n = 900 if tier == "quick" else 4000
+    n = 900 if tier == "quick" else 20000
     orig, relaid, descs = [], [], []
     for _ in range(n):
         c = gen.gen_case(rng, p_invalid=0.05, window_focus=(rng.random() < 0.4))
